@@ -18,6 +18,7 @@ CONSTANTS Cap, Reserved, Unify, Kind, Backend, MinSeg0, FixedRewind,
           OwnedToo,       \* also the *_owned variants
           MinSegSet, IncSet, RewindSet, TruncSet, WithClear, WithLeak,
           WithReopen,     \* close + map_mut reopen of a file-backed arena as a call of the menu
+          WithClone,      \* a second arena value (Clone) of the same arena: made, asked, allocated through, dropped
           Prefix,         \* scripted history applied before the free exploration starts (part of every driver)
           Emit
 
@@ -63,9 +64,17 @@ Menu(s) ==
   \cup (IF WithReopen /\ Backend = "file" /\ Len(hist) > 0 /\ hist[Len(hist)].k # "reopen"
         THEN {[k |-> "reopen", variant |-> "map_mut", cap |-> 0, flush |-> FALSE, create |-> FALSE]} ELSE {})
   \cup {[k |-> "truncate", v |-> v] : v \in {v \in TruncSet : Max(v, s.cursor) # s.cap}}
+  \cup (IF ~WithClone THEN {}
+        ELSE IF Len(s.clones) = 0 THEN {[k |-> "mkclone"]}
+        ELSE {[k |-> "cobs"], [k |-> "dropclone"]}
+             \* through the other value: only calls that cannot write through a stale base pointer are driven on the
+             \* real code (the value is not stale, or the cached capacity refuses the request and the list is empty)
+             \cup {[k |-> "ab", n |-> n, o |-> FALSE, via |-> "clone"] :
+                     n \in {n \in ByteSizes : ~s.clones[Len(s.clones)].stale
+                                               \/ (s.fl = <<>> /\ n > 0 /\ s.cursor + n > s.clones[Len(s.clones)].cap)}})
 
 PreOf(s) == [doff |-> s.doff, obs |-> Obs(s), live |-> s.live, leaked |-> s.leaked, first |-> s.first,
-             truncated |-> s.truncated, rewound |-> s.rewound]
+             truncated |-> s.truncated, rewound |-> s.rewound, nclones |-> Len(s.clones)]
 CfgRec == [kind |-> Kind, maxalign |-> 8, reserved |-> Reserved]
 
 \* the deallocs a release is expected to issue in the model: exactly what DropHandle does
@@ -117,6 +126,6 @@ Spec == Init /\ [][Next]_vars
 LiveDisjoint == \A a, b \in DOMAIN st.live : a # b => Disjoint(Acc(st.live[a]), Acc(st.live[b]))
 LiveInBounds == \A a \in DOMAIN st.live : (st.live[a].ps = 0) \/ st.rewound \/ (st.doff <= st.live[a].po /\ Acc(st.live[a]).hi <= st.cursor)
 LiveIntactInv == LiveIntactM(st)
-RefsInv == st.refs = 1 + Cardinality({h \in DOMAIN st.live : st.live[h].embeds = 1})
+RefsInv == st.refs = 1 + Len(st.clones) + Cardinality({h \in DOMAIN st.live : st.live[h].embeds = 1})
 TypeOK == st.cursor \in st.doff..st.cap /\ st.disc >= 0
 =============================================================================
